@@ -153,11 +153,14 @@ def run_case(desc):
                 a, b = rng.randrange(len(inst)), rng.randrange(len(inst))
                 inst[a], inst[b] = inst[b], inst[a]
         S.clock.t = 1_900_000_000
+        same_zone_objects = kind == "fall" and zone != "UTC" and rng.random() < 0.35
         for i, t in zip(order, inst):
             st = S.stores[i]
             st.content = raw[i] if rp.role[i] != "psrc" else st.content
             st.mtick = t
             rep = rand_rep(rng)
+            if same_zone_objects and rng.random() < 0.8:
+                rep = ("zone", zone)  # aware values that share ONE tzinfo object (Python orders those by wall clock, ignoring fold)
             reps[i] = rep
             st.dt_of = (lambda tick, rep=rep: represent(tick, rep))
         fresh_epoch = None
